@@ -526,7 +526,10 @@ func buildGenerators(scripts []proto.GenScript) ([]gengo.Generator, error) {
 		case "nonew":
 			if s.Scalar && s.NoAlias && scalarSlot == nil {
 				scalarSlot = s
-				g := scalarGen(100) // like the slots' prototypes: not the zero value
+				// like the slots' prototypes not the zero value; the value also names the prototype, because
+				// gengo's registry may hand out prototypes of earlier requests of this process
+				g := scalarGen(1000 * (len(scalarProtoNames) + 1))
+				scalarProtoNames[g] = s.Name
 				out = append(out, &g)
 				continue
 			}
@@ -594,6 +597,8 @@ type scalarGen int
 var (
 	scalarSlot  *proto.GenScript
 	scalarCores = map[*scalarGen]*core{}
+	// scalarProtoNames: prototype value -> generator name, for the life of the process
+	scalarProtoNames = map[scalarGen]string{}
 )
 
 func (g *scalarGen) bind() *core {
@@ -605,7 +610,15 @@ func (g *scalarGen) bind() *core {
 	return c
 }
 
-func (g *scalarGen) Name() string { return scalarSlot.Name }
+func (g *scalarGen) Name() string {
+	if n, ok := scalarProtoNames[*g]; ok {
+		return n // a prototype, of this request or of an earlier one
+	}
+	if scalarSlot != nil {
+		return scalarSlot.Name
+	}
+	return ""
+}
 
 func (g *scalarGen) GenerateType(c gengo.Context, t *types.Named) error {
 	*g++
